@@ -18,6 +18,9 @@ T = {
  "C05-c": ("the ID buffer is made once outside the pool's New closure", "two Stores alive at once (overlapping or nested requests)"),
  "C05-d": ("pooled Stores are pre-armed with and reset to the current no-route entry", "request, then HandleNoRoute, then an unmatched request reusing the pooled Store"),
  "C05-e": ("parameter capture is skipped when len(V) == cap(V)", "a Store recycled after a deeper route was registered: silent no-route"),
+ "C06-c": ("PushTask's timeout arm tries a last non-blocking send whose success arm forgets to return nil", "the timer firing while the lane has room: the task is enqueued and started but ErrTimeout is returned"),
+ "C06-d": ("the worker takes its next task directly from its lane's buffered queue when len() > 0", "the queue goroutine takes the task between the len() check and the receive: the worker parks on the empty buffer (single lane: accepted task never started)"),
+ "C06-e": ("the queue goroutine's first select moves into a helper that returns nil for 'context done'", "a nil Task pushed to a lane: the queue goroutine exits on a live context"),
  "C07-c": ("PushTask loses its non-blocking Done pre-check", "push after cancel into a queue that still has room"),
  "C07-d": ("wg.Add moves from New into the goroutine bodies", "Wait entered before the new goroutines are first scheduled"),
  "C07-e": ("wg.Done is called after the body returns instead of being deferred", "a task that ends its worker with runtime.Goexit, then cancel and Wait"),
@@ -57,6 +60,9 @@ T = {
  "C18-e": ("a deferred 'remove partial destination on error' is registered before the same-file guard", "CopyFile(p, q) with q another spelling of p: the refusal deletes the file"),
  "C19-c": ("WriteString's fallback calls pw.Write (which already counts) and then counts again", "a wrapped writer that is not an io.StringWriter"),
  "C19-d": ("buffered status channel with a blocking drain in the default branch", "the consumer takes the buffered value between the failed send and the drain"),
+ "C20-c": ("Launch takes its stdout/stderr buffers from a sync.Pool without Reset", "a failed Launch followed by a successful one in the same process"),
+ "C20-d": ("Run decides its role from os.Getenv(name) != \"\" instead of LookupEnv's presence result", "a handler registered under the empty name"),
+ "C20-e": ("the launcher environment is cached in a package variable and appended to per call", "two overlapping Launch calls with different names"),
  "C19-e": ("Close sets the channel field to nil after closing it", "Status() called again after Close"),
 }
 def detect(name, prop):
